@@ -91,6 +91,9 @@ def resolve(target):
     return obj
 
 
+UNEVALUABLE = {}
+
+
 def run_once(job, func, args, specns):
     """-> (verdict, detail)"""
     names = list(job['params'])
@@ -131,8 +134,13 @@ def run_once(job, func, args, specns):
         for e in spec.get('ensures', []):
             try:
                 ok = ceval(e, env2, old_env, specns)
+            except NotImplementedError:
+                continue    # the harness declares this observation unavailable
             except Exception as ex:
-                continue    # a clause that cannot be evaluated concretely says nothing
+                # a clause that cannot be evaluated concretely says nothing -- but it is counted,
+                # so that a blind harness shows up in the evidence
+                UNEVALUABLE[e] = repr(ex)
+                continue
             if not ok:
                 tok = getattr(raised, 'token', None)
                 return 'violates', {'clause': e, 'observed': 'raised %r token=%s' % (raised, describe(tok))}
@@ -146,8 +154,12 @@ def run_once(job, func, args, specns):
     for e in job.get('ensures', []):
         try:
             ok = ceval(e, env2, old_env, specns)
+        except NotImplementedError:
+            continue        # the harness declares this observation unavailable
         except Exception as ex:
-            # a clause that cannot be evaluated concretely says nothing about the code
+            # a clause that cannot be evaluated concretely says nothing about the code -- but it
+            # is counted, so that a blind harness shows up in the evidence
+            UNEVALUABLE[e] = repr(ex)
             continue
         if not ok:
             return 'violates', {'clause': e, 'observed': 'result = %s' % describe(result)}
@@ -295,6 +307,8 @@ def main():
                 break
         out['tried'] = tried
         out['pre_ok'] = pre_ok
+    if UNEVALUABLE:
+        out['unevaluable_clauses'] = {k: v for k, v in list(UNEVALUABLE.items())[:8]}
     print(json.dumps(out))
 
 
